@@ -143,7 +143,14 @@ WellTyped(m) ==
       [] m.a = "/b_setn" -> n >= 4 /\ IsI(g[1]) /\ CountedGroups(g, 2, FALSE)
       [] m.a = "/b_fill" -> n >= 4 /\ IsI(g[1])
             /\ Groups(g, 2, 3, LAMBDA p : IsI(g[p]) /\ IsI(g[p + 1]) /\ IsNum(g[p + 2]))
-      [] m.a = "/b_gen" -> Shape(m, <<"i", "s">>)
+      \* buffer fill commands of the reference; other /b_gen commands are plugin-defined (any scalar arguments)
+      [] m.a = "/b_gen" -> Shape(m, <<"i", "s">>) /\
+            (CASE g[2].s \in {"sine1", "cheby"} -> n >= 4 /\ IsI(g[3]) /\ g[3].i \in 0 .. 7 /\ AllFrom(g, 4, IsNum)
+               [] g[2].s = "sine2" -> n >= 5 /\ IsI(g[3]) /\ g[3].i \in 0 .. 7 /\ Groups(g, 4, 2, LAMBDA p : IsNum(g[p]) /\ IsNum(g[p + 1]))
+               [] g[2].s = "sine3" -> n >= 6 /\ IsI(g[3]) /\ g[3].i \in 0 .. 7
+                                      /\ Groups(g, 4, 3, LAMBDA p : IsNum(g[p]) /\ IsNum(g[p + 1]) /\ IsNum(g[p + 2]))
+               [] g[2].s = "copy" -> n = 6 /\ AllFrom(g, 3, IsI)
+               [] OTHER -> AllFrom(g, 3, LAMBDA x : x.t \in {"i", "f", "s"}))
       [] m.a = "/b_query" -> n >= 1 /\ AllFrom(g, 1, IsI)
       [] m.a = "/b_get" -> n >= 2 /\ AllFrom(g, 1, IsI)
       [] m.a = "/b_getn" -> n >= 3 /\ IsI(g[1]) /\ Groups(g, 2, 2, LAMBDA p : IsI(g[p]) /\ IsI(g[p + 1]))
@@ -173,7 +180,8 @@ BufIds(m) ==
     (IF m.a \in {"/b_alloc", "/b_allocRead", "/b_allocReadChannel", "/b_read", "/b_readChannel", "/b_write", "/b_free",
                  "/b_zero", "/b_close", "/b_set", "/b_setn", "/b_fill", "/b_gen", "/b_get", "/b_getn"}
      THEN {m.g[1].i}
-     ELSE IF m.a = "/b_query" THEN {m.g[k].i : k \in 1 .. Len(m.g)} ELSE {}) \cup NestedOf(m, BufIds)
+     ELSE IF m.a = "/b_query" THEN {m.g[k].i : k \in 1 .. Len(m.g)} ELSE {})
+    \cup (IF m.a = "/b_gen" /\ m.g[2].s = "copy" THEN {m.g[4].i} ELSE {}) \cup NestedOf(m, BufIds)
 RECURSIVE CountedStarts(_, _)
 CountedStarts(g, p) == IF p + 1 > Len(g) THEN {} ELSE {g[p].i + d : d \in 0 .. (g[p + 1].i - 1)} \cup CountedStarts(g, p + 2 + g[p + 1].i)
 BusIds(m) ==
@@ -299,6 +307,9 @@ Apply(st, e) ==
       [] e.op = "free_all" -> R(st, One(Msg("/g_freeAll", <<I(id)>>)), "")
       [] e.op = "deep_free" -> R(st, One(Msg("/g_deepFree", <<I(id)>>)), "")
       [] e.op = "s_get" -> R(st, One(Msg("/s_get", <<I(id)>> \o ScalarList(st, e.a))), "")
+      [] e.op = "s_getn" -> R(st, One(Msg("/s_getn", <<I(id)>> \o ScalarList(st, e.a) \o <<I(e.n[1])>>)), "")
+      [] e.op = "n_query" -> R(st, One(Msg("/n_query", <<I(id)>>)), "")
+      [] e.op = "dump_tree" -> R(st, One(Msg("/g_dumpTree", <<I(id), I(e.n[1])>>)), "")
       [] e.op = "free_default_group" -> R(st, One(Msg("/g_freeAll", <<I(st.cfg.defgroup)>>)), "")
       [] e.op = "reorder" -> R(st, One(Msg("/n_order", <<I(ActionNum(e.act)), I(TargetId(st, e))>> \o ScalarList(st, e.a))), "")
       \* ---- buffers: n = <<frames, channels>>; cm = completion message kind
@@ -332,6 +343,20 @@ Apply(st, e) ==
       [] e.op = "b_setn" -> IF o.alive THEN R(st, One(Msg("/b_setn", <<I(id)>> \o SetnList(st, e.a))), "") ELSE R(st, <<>>, "AlreadyFreed")
       [] e.op = "b_fill" ->      \* fill(start, frames, value)
             IF o.alive THEN R(st, One(Msg("/b_fill", <<I(id)>> \o ScalarList(st, e.a))), "") ELSE R(st, <<>>, "AlreadyFreed")
+      [] e.op = "b_get" -> IF o.alive THEN R(st, One(Msg("/b_get", <<I(id), I(e.n[1])>>)), "") ELSE R(st, <<>>, "AlreadyFreed")
+      [] e.op = "b_getn" -> IF o.alive THEN R(st, One(Msg("/b_getn", <<I(id), I(e.n[1]), I(e.n[2])>>)), "") ELSE R(st, <<>>, "AlreadyFreed")
+      \* wave fill: n = <<normalize, as wavetable, clear first>> -> flags 1, 2, 4; a = partial data, interleaved per partial
+      [] e.op \in {"b_sine1", "b_sine2", "b_sine3", "b_cheby"} ->
+            IF o.alive THEN R(st, One(Msg("/b_gen", <<I(id), S(CASE e.op = "b_sine1" -> "sine1" [] e.op = "b_sine2" -> "sine2"
+                                                                 [] e.op = "b_sine3" -> "sine3" [] OTHER -> "cheby"),
+                                                     I(e.n[1] + 2 * e.n[2] + 4 * e.n[3])>> \o ScalarList(st, e.a))), "")
+            ELSE R(st, <<>>, "AlreadyFreed")
+      [] e.op = "b_normalize" ->     \* n = <<as wavetable>>, a = <<new max>>
+            IF o.alive THEN R(st, One(Msg("/b_gen", <<I(id), S(IF e.n[1] = 1 THEN "wnormalize" ELSE "normalize"), Scalar(st, e.a[1])>>)), "")
+            ELSE R(st, <<>>, "AlreadyFreed")
+      [] e.op = "b_copy" ->          \* copy_data(dst = target object, dst start, start, samples)
+            IF o.alive THEN R(st, One(Msg("/b_gen", <<I(st.obj[e.t].id), S("copy"), I(e.n[1]), I(id), I(e.n[2]), I(e.n[3])>>)), "")
+            ELSE R(st, <<>>, "AlreadyFreed")
       [] e.op = "b_read" ->      \* read(path, file start, frames, buf start, leave open) + info query on completion
             R(st, One(MsgB("/b_read", <<I(id), S(e.def), I(e.n[1]), I(e.n[2]), I(e.n[3]), I(e.n[4]), Blob(1)>>,
                            <<Msg("/b_query", <<I(id)>>)>>)), "")
